@@ -645,6 +645,11 @@ def run_c04(ctx):
         off = 3 if nd % 3 == 0 else None
         ln = data_total(True, nsnr, off, nd)
         vals.append(('big', (bool(nd & 1), ln if ln <= 65535 else None, 7, 8, nsnr, off, rbytes(rng, nd))))
+    # offset sizes near 65535 (header + offset size does not fit 16 bits; no Length field can be present)
+    for off in (65521, 65524, 65527, 65528, 65530, 65535):
+        for nsnr in (None, (3, 4)):
+            nd = off + rng.choice([1, 2, 9])
+            vals.append(('big_offset', (bool(off & 1), None, extreme(rng, 16), extreme(rng, 16), nsnr, off, rbytes(rng, nd))))
     # one in four is encoded behind what the writer already holds; the message is what was appended
     pre = [rbytes(rng, rng.choice([1, 6, 12, 300])).hex() if i % 4 == 3 else '' for i in range(len(vals))]
     enc = ['ENC\t%s\t%s' % (data_text(*v), p) for (_, v), p in zip(vals, pre)]
@@ -729,8 +734,19 @@ def run_c05(ctx):
     return rep
 
 
+# both ends of every octet class the UTF-8 automaton distinguishes (RFC 3629 table 3-7)
+UTF8_CLASS_ENDS = [0x00, 0x7f, 0x80, 0x8f, 0x90, 0x9f, 0xa0, 0xbf, 0xc0, 0xc1, 0xc2, 0xdf, 0xe0, 0xe1, 0xec, 0xed, 0xee, 0xef,
+                   0xf0, 0xf1, 0xf3, 0xf4, 0xf5, 0xff]
+
+
 def utf8_boundary(rng, thorough):
     out = [bytes([a]) for a in range(256)]
+    # every string of up to three (thorough: four) octets over the class ends: each transition of the automaton from each state
+    import itertools
+    for n in (2, 3, 4) if thorough else (2, 3):
+        for t in itertools.product(UTF8_CLASS_ENDS, repeat=n):
+            if t[0] >= 0x80:
+                out.append(bytes(t))
     for a in range(0x80, 256, 1 if thorough else 3):
         for b2 in (0x00, 0x7f, 0x80, 0x8f, 0x90, 0x9f, 0xa0, 0xbf, 0xc0, 0xff):
             out.append(bytes([a, b2]))
@@ -777,9 +793,15 @@ def run_c06(ctx):
     # empty optional strings / empty variable payloads are representable values too
     for a in ['ResultCode(1,Generic,x)', 'Q931CauseCode(1,2,x)', 'HostName()', 'VendorName()', 'Hidden(5,)']:
         cases.append('ENCA\t%s\t' % a); tags.append('edge_empty')
+    # one case in five is encoded behind what the writer already holds (the specification encoder appends: G_C06 is stated for
+    # every prefix); the octets produced are then the prefix followed by the same encoding
+    for i, c in enumerate(cases):
+        if i % 5 == 4 and c.startswith(('ENC\t', 'ENCA\t')) and c.endswith('\t') and len(c) < 3000:
+            cases[i] = c + rbytes(rng, rng.choice([1, 2, 12, 28, 255, 300])).hex()
+            tags[i] += '/prefixed'
     run_compare(ctx, rep, cases, tags, lambda c, r: r)
     conformance(rep)
-    rep.notes['rule'] = 'ENC/ENCA octet-for-octet on random control/data messages and every AVP kind (incl. bitmask words, empty edge values, size limits)'
+    rep.notes['rule'] = 'ENC/ENCA octet-for-octet on random control/data messages and every AVP kind (incl. bitmask words, empty edge values, size limits), one in five behind a non-empty prefix'
     rep.notes['channels'] = ['ENC', 'ENCA', 'BITS']
     return rep
 
@@ -1028,7 +1050,11 @@ def run_c09(ctx):
     def rand_msg():
         if rng.random() < 0.6:
             return rand_ctrl(rng, small=rng.random() < 0.7)
-        return data_text(*rand_data(rng))
+        P, ln, tid, sid, nsnr, off, payload = rand_data(rng)
+        if rng.random() < 0.3:   # the Length and Offset Size fields are echoed as given, whatever they say (0, 1, 65535, ...)
+            ln = rng.choice([None, 0, extreme(rng, 16)])
+            off = rng.choice([None, off, extreme(rng, 16)])
+        return data_text(P, ln, tid, sid, nsnr, off, payload)
     vals = [rand_msg() for _ in range(ctx.scale(3000, 40000))]
     pre = []
     for _ in vals:
@@ -1171,8 +1197,32 @@ def run_c10(ctx):
 SECRET_LENS = list(range(0, 300)) + [511, 512, 513, 1009, 1018, 1023, 1024]
 
 
+# pairs of distinct equal-length octet strings that collide under a common non-cryptographic 32-bit hash started from its
+# usual initial state (found once by a birthday search, tools/hash_twins.py): a fingerprint computed with such a hash over
+# the secret -- alone or followed by anything -- cannot tell the two apart
+HASH_TWINS = [
+    ('fnv1a32', bytes.fromhex('74756e6e656c2d7365637265742d353132373839'), bytes.fromhex('74756e6e656c2d7365637265742d373439313932')),
+    ('fnv1a32', bytes.fromhex('69316dc1a0d9c9e6'), bytes.fromhex('0e5aa3ab9d03d96d')),
+    ('fnv1_32', bytes.fromhex('74756e6e656c2d7365637265742d333239353939'), bytes.fromhex('74756e6e656c2d7365637265742d353332333832')),
+    ('fnv1_32', bytes.fromhex('73539206b0f9619d'), bytes.fromhex('286d1119417981c7')),
+    ('djb2_xor', bytes.fromhex('021b39e125863616'), bytes.fromhex('353c9ee7a76a233c')),
+    ('jenkins_oaat', bytes.fromhex('74756e6e656c2d7365637265742d313239383030'), bytes.fromhex('74756e6e656c2d7365637265742d313239383636')),
+    ('jenkins_oaat', bytes.fromhex('60af40ca8f4c0aa8'), bytes.fromhex('e85e2ea364d1fa28')),
+    ('crc32', bytes.fromhex('6863da74f8e7c02c'), bytes.fromhex('5655d0298b34e7f3')),
+    ('adler32', bytes.fromhex('74756e6e656c2d7365637265742d303030303230'), bytes.fromhex('74756e6e656c2d7365637265742d303030313031')),
+    ('adler32', bytes.fromhex('a195a45c672ef6df'), bytes.fromhex('b30ba878d4fd4ba6')),
+    ('rotl5_xor', bytes.fromhex('c5dc526f766ce7f6'), bytes.fromhex('207d77cc142cdc96')),
+]
+TWIN_OF = {}
+for _n, _a, _b in HASH_TWINS:
+    TWIN_OF[_a] = _b
+    TWIN_OF[_b] = _a
+
+
 def rsecret(rng):
     c = rng.random()
+    if c < 0.04:
+        return rng.choice(HASH_TWINS)[1]
     if c < 0.45:
         return rng.choice([b'', b's', rbytes(rng, rng.randrange(1, 9)), rbytes(rng, rng.choice([16, 55, 56, 64, 100]))])
     if c < 0.9:
@@ -1183,17 +1233,20 @@ def rsecret(rng):
 
 def weak_twin(rng, s):
     """a different secret that a weak fingerprint of the first (length, sum, xor, a 31-polynomial, first/last octets) cannot tell apart"""
+    if s in TWIN_OF:
+        return TWIN_OF[s]
     if b'Aa' in s:
         return s.replace(b'Aa', b'BB', 1)
     b = bytearray(s)
     if len(b) >= 2:
         c = rng.random()
         i = rng.randrange(len(b) - 1)
+        k = rng.choice([31, 31, 33, 37, 131])
         if c < 0.35:
             j = rng.randrange(len(b))
             b[i], b[j] = b[j], b[i]
-        elif c < 0.7 and b[i] < 255 and b[i + 1] >= 31:
-            b[i] += 1; b[i + 1] -= 31          # equal under h = 31*h + c
+        elif c < 0.7 and b[i] < 255 and b[i + 1] >= k:
+            b[i] += 1; b[i + 1] -= k           # equal under h = k*h + c (k = 31, 33, 37, 131)
         else:
             k = len(b) // 2
             b[k] ^= 0x20
@@ -1207,7 +1260,7 @@ def with_secret_twins(rng, vals, args):
     v2, a2 = [], []
     for v, a in zip(vals, args):
         v2.append(v); a2.append(a)
-        if rng.random() < 0.1 and a[0]:
+        if (rng.random() < 0.1 or a[0] in TWIN_OF) and a[0]:
             t = weak_twin(rng, a[0])
             if t != a[0]:
                 v2.append(v); a2.append((t, a[1], a[2], a[3]))
@@ -1741,8 +1794,16 @@ def run_c16(ctx):
         for c, t, r in zip(hid, want, rh[w]):
             if not r.startswith('Ok Hidden(%d,' % t):
                 rep.fail('hidden form does not carry the attribute-type number of its kind (%d)' % t, case=c[:300], executor=w, got=r[:120])
+    # ... and a hidden AVP is accepted at parse time whatever attribute type it carries in clear (the kind is only known to reveal)
+    hrec = [avp_rec(t, rbytes(rng, 16 * rng.randrange(1, 4)), h=1, m=rng.choice([0, 1])) for t in range(65536)]
+    hcases = ['AVPS\t' + r.hex() for r in hrec]
+    rr = run_compare(ctx, rep, hcases, ['hidden_attribute_type'] * len(hcases), lambda c, r: r, nontrivial=lambda c, m: True)
+    for w in IMPLS:
+        for t, (c, r) in enumerate(zip(hcases, rr[w])):
+            if not strip_rem(r).startswith('[Ok(Hidden(%d,' % t):
+                rep.fail('a hidden AVP carrying attribute type %d is not returned as Hidden(%d, ..)' % (t, t), case=c, executor=w, got=r[:160])
     rep.exhaustive = True
-    rep.notes['exhaustive_domain'] = 'all 65536 codes for message type, error type, proxy authen type, result code (typed views and wire), attribute type'
+    rep.notes['exhaustive_domain'] = 'all 65536 codes for message type, error type, proxy authen type, result code (typed views and wire), attribute type (plain and hidden)'
     rep.notes['rule'] = 'exhaustive sweep of every 16-bit code of each enumerated field through the implementation, plus every named value encoded'
     rep.notes['channels'] = ['AVPS', 'CODE', 'CODEN', 'ENCA', 'HIDE']
     return rep
@@ -1974,6 +2035,19 @@ def pure_workload(ctx, n):
         a = hide_args(rng)
         cases.append('HIDE\t%s\t%s\t%s\t%s\t%s' % (rand_avp(rng, allow_hidden=False, maxpay=60), a[0].hex(), a[1].hex(), a[2].hex(), a[3].hex()))
         cases.append('REVEAL\tHidden(7,%s)\t%s\t%s' % (rbytes(rng, 32).hex(), a[0].hex(), a[1].hex()))
+    # hidden state keyed by a weak fingerprint of the secret: the same multi-block value under a secret and, right after, under
+    # its twin (adjacent in the sequential run, far apart in the shuffled and the threaded ones)
+    for (_n, sa, sb) in HASH_TWINS + [('poly31', b'tunnel-Aa-secret', b'tunnel-BB-secret')]:
+        k = rng.choice(['HostName', 'Challenge', 'VendorName', 'ProxyAuthenResponse'])
+        v = rand_avp(rng, k, maxpay=60)
+        while len(v) < 80:
+            v = rand_avp(rng, k, maxpay=60)
+        a = hide_args(rng)
+        for sx in (sa, sb):
+            cases.append('HIDE\t%s\t%s\t%s\t%s\t%s' % (v, sx.hex(), a[1].hex(), a[2].hex(), a[3].hex()))
+        ct = rbytes(rng, 48)
+        for sx in (sa, sb):
+            cases.append('REVEAL\tHidden(7,%s)\t%s\t%s' % (ct.hex(), sx.hex(), a[1].hex()))
     # hidden state keyed on part of the arguments would show between calls that share that part
     s0, rv0 = b'shared-secret', b'\x01\x02\x03\x04'
     for k in rng.sample(KIND_LIST, 12):
